@@ -3,12 +3,14 @@
 cd "$(dirname "$0")/.." || exit 1
 mkdir -p evidence out/replays "${VERIF_TMP:-/var/tmp}"
 rc=0
+jt="${VERIF_TMP:-/var/tmp}/verif-setup-jtmp-$$"; mkdir -p "$jt"   # SANY's scratch directories (removed below), not /tmp
 for f in spec/*/*.tla; do
   d=$(dirname "$f")
   case "$f" in spec/lib/*) continue;; esac
-  out=$(cd "$d" && java -cp /verif/spec/lib:/opt/veriftools/tla/tla2tools.jar:/opt/veriftools/tla/CommunityModules-deps.jar tla2sany.SANY "$(basename "$f")" 2>&1)
+  out=$(cd "$d" && java -Djava.io.tmpdir="$jt" -cp /verif/spec/lib:/opt/veriftools/tla/tla2tools.jar:/opt/veriftools/tla/CommunityModules-deps.jar tla2sany.SANY "$(basename "$f")" 2>&1)
   # informational only: a spec that is still being built must not break the setup of the other checks
   if echo "$out" | grep -q "Errors\|Parse Error\|Fatal"; then echo "SANY WARNING: $f does not parse on its own (MC wrappers that need constants are fine)"; fi
 done
+rm -rf "$jt"
 /venv/bin/python -c "import hypothesis, sys; sys.path.insert(0,'/repo/src'); import werkzeug" || rc=1
 exit $rc
